@@ -32,8 +32,12 @@ def snap(args, kwargs):
 
 
 def rowok(M, pts):
-    A, b = M[:, 1:], M[:, 0]
-    return numpy.einsum("ij,...j->...i", A, pts) >= b
+    """exact: Python-int arithmetic (object dtype), so values beyond 2**53 are compared correctly"""
+    A, b = M[:, 1:].astype(object), M[:, 0].astype(object)
+    P = pts.astype(object)
+    flat = P.reshape(-1, P.shape[-1])
+    out = numpy.array([[sum(int(a) * int(x) for a, x in zip(A[i], p)) >= int(b[i]) for i in range(A.shape[0])] for p in flat], dtype=bool)
+    return out.reshape(P.shape[:-1] + (A.shape[0],))
 
 
 def make_post(name):
@@ -42,6 +46,10 @@ def make_post(name):
         if pre is None:
             raise monitor.OutOfScope()
         M, pts = pre
+        # int64 is the stated arithmetic: inputs whose exact row values leave it are outside the domain
+        A_, P_ = M[:, 1:].astype(object), pts.astype(object).reshape(-1, pts.shape[-1])
+        if any(abs(sum(abs(int(a) * int(x)) for a, x in zip(A_[i], p_))) >= 2 ** 62 for i in range(A_.shape[0]) for p_ in P_):
+            raise monitor.OutOfScope()
         ok = rowok(M, pts)
         if name == "ineqs_satisfied":
             exp = ok.all(axis=-1)
@@ -91,6 +99,26 @@ def gen_case(rng, tier, ctx, i):
         first = numpy.array(pts, dtype=numpy.int64).reshape(-1, n)[0]
         row = rng.choice(p["M"])
         row[0] = int(numpy.dot(row[1:], first)) + rng.choice([0, 0, 1, -1])
+    if rng.random() < 0.12:
+        # magnitudes beyond 2**53 (still far inside int64): a violation by a margin of 1 must not be rounded away
+        big = rng.choice([2 ** 53, 2 ** 55 + 1, 3 * 2 ** 53])
+        for r_ in p["M"]:                       # keep every product far inside int64: small coefficients everywhere
+            for k_ in range(len(r_)):
+                r_[k_] = max(-3, min(3, r_[k_]))
+        row = p["M"][0]
+        first = numpy.array(pts, dtype=object).reshape(-1, n)[0]
+        if rng.random() < 0.5:
+            row[1] = big
+            row[0] = int(sum(int(a) * int(x) for a, x in zip(row[1:], first))) + rng.choice([0, 1])
+        else:
+            j = rng.randrange(n)
+            flat = numpy.array(pts, dtype=object).reshape(-1, n)
+            flat[0][j] = big
+            pts = flat.reshape(numpy.array(pts, dtype=object).shape).tolist()
+            for k_ in range(1, len(row)):
+                row[k_] = rng.choice([-3, -1, 1, 3])
+            row[0] = int(sum(int(a) * int(x) for a, x in zip(row[1:], flat[0]))) + rng.choice([0, 1])
+        p.pop("dtype", None)
     return {"poly": p, "points": pts, "fn": rng.choice(FUNCS), "via": rng.choice(["method", "alias"])}
 
 
